@@ -646,6 +646,22 @@ func buildBaseShape(t *testing.T, rng *rand.Rand, version string, shape *[2]int,
 		}
 		if minor < 5 {
 			cluster.WithLegacyVAddrs(legacyFee, legacyWd)(d)
+		} else {
+			// Addresses that begin with zero bytes (the deposit contract 0x00000000219ab5…, burn and
+			// vanity addresses, 1 in 256 ordinary ones): shortening such a value changes the text of the
+			// field but not its numeric value, so a hash that pads instead of checking the length cannot
+			// tell the two apart (seeded change C12-r7). Every second validator gets 1-4 leading zero
+			// bytes in its withdrawal address; the fee recipient too where no builder registration was
+			// pre-signed over it (v1.5, v1.6).
+			for i := range d.ValidatorAddresses {
+				if (seed+i)%2 != 0 {
+					continue
+				}
+				d.ValidatorAddresses[i].WithdrawalAddress = zeroLedAddr(d.ValidatorAddresses[i].WithdrawalAddress, 1+(seed+i)/2%4)
+				if minor < 7 {
+					d.ValidatorAddresses[i].FeeRecipientAddress = zeroLedAddr(d.ValidatorAddresses[i].FeeRecipientAddress, 1+(seed+i)/3%4)
+				}
+			}
 		}
 	}
 
@@ -754,6 +770,24 @@ func buildBaseShape(t *testing.T, rng *rand.Rand, version string, shape *[2]int,
 	}
 
 	return lockJSON, defJSON, meta, eth1, nil
+}
+
+// zeroLedAddr returns addr with its first k bytes set to zero (checksummed like the original).
+func zeroLedAddr(addr string, k int) string {
+	b, err := hex.DecodeString(strings.TrimPrefix(strings.ToLower(addr), "0x"))
+	if err != nil || len(b) != 20 {
+		return addr
+	}
+	for i := 0; i < k && i < 19; i++ {
+		b[i] = 0
+	}
+	b[19] |= 1
+	out := "0x" + hex.EncodeToString(b)
+	if c, err := eth2util.ChecksumAddress(out); err == nil {
+		return c
+	}
+
+	return out
 }
 
 func randAddr(rng *rand.Rand, checksummed bool) string {
